@@ -336,9 +336,9 @@ def _drive(world, scenario, run, res, hooks):
             src_e = ents[c["src"]][c.get("se", 0)]
             dst_e = ents[c["dst"]][c.get("de", 0)]
             if c.get("sc"):
-                src_e = src_e.children[0]
+                src_e = next(ch for ch in src_e.children if ch.eid.endswith("c"))
             if c.get("dc"):
-                dst_e = dst_e.children[0]
+                dst_e = next(ch for ch in dst_e.children if ch.eid.endswith("c"))
             world.connect(src_e, dst_e, *pairs, **kw)
             verdicts[i] = ("ok", None)
         except ScenarioError as e:
